@@ -247,8 +247,10 @@ pub struct Ctx {
     pub assumptions: Vec<String>,
     pub notes: Vec<String>,
     pub per_config: BTreeMap<String, u64>,
+    pub fuzz_execs: u64,
     next_sample_at: u64,
     sampled_subs: HashSet<String>,
+    sample_budget: usize,
     pub max_violations_per_sub: usize,
 }
 
@@ -275,8 +277,10 @@ impl Ctx {
             assumptions: Vec::new(),
             notes: Vec::new(),
             per_config: BTreeMap::new(),
+            fuzz_execs: 0,
             next_sample_at: 1,
             sampled_subs: HashSet::new(),
+            sample_budget: 24,
             max_violations_per_sub: 1,
         }
     }
@@ -349,7 +353,7 @@ impl Ctx {
         let mut rec = Rec::default();
         // samples: the first case of every sub-check, then a geometric schedule over all cases
         let first_of_sub = counting && !sub.starts_with("regress:") && self.next_sample_at != u64::MAX && !self.sampled_subs.contains(sub);
-        if counting && self.samples.len() < 20 && (first_of_sub || self.cases + 1 >= self.next_sample_at) {
+        if counting && self.samples.len() < self.sample_budget && (first_of_sub || self.cases + 1 >= self.next_sample_at) {
             rec.want_note = true;
         }
         CUR_INPUT.store(input as *const Input as *mut Input, Ordering::Release);
@@ -430,8 +434,54 @@ impl Ctx {
     }
 
     /// Drive `check` with inputs from `strat`; on failure proptest shrinks and the minimal
-    /// input is recorded as a violation.
+    /// input is recorded as a violation. Large case counts are split into shards (own seed,
+    /// own proptest runner, own thread); the result is a pure function of (code, seed, tier).
     pub fn run_proptest<S>(&mut self, sub: &str, cfg: &'static dyn Config, cases: u32, strat: S, check: CheckFn)
+    where
+        S: Strategy<Value = Input> + Sync,
+    {
+        if self.sub_failed(sub) {
+            return;
+        }
+        let shards: u32 = if cases >= 16_000 { (cases / 8_000).min(12) } else { 1 };
+        if shards == 1 {
+            let seed = self.sub_seed(sub, cfg.name());
+            self.run_proptest_shard(sub, cfg, cases, &strat, check, seed);
+            return;
+        }
+        let per = cases / shards;
+        let mut forks: Vec<Ctx> = (0..shards).map(|_| self.fork()).collect();
+        // the first shard draws the samples for this sub-check
+        forks[0].next_sample_at = 1;
+        forks[0].sample_budget = 3;
+        let base = self.sub_seed(sub, cfg.name());
+        std::thread::scope(|sc| {
+            for (i, f) in forks.iter_mut().enumerate() {
+                let strat = &strat;
+                let n = if i as u32 == shards - 1 { cases - per * (shards - 1) } else { per };
+                sc.spawn(move || {
+                    f.run_proptest_shard(sub, cfg, n, strat, check, crate::util::mix64(base ^ (i as u64 + 1).wrapping_mul(0x9e3779b97f4a7c15)));
+                });
+            }
+        });
+        let mut first = true;
+        for f in forks {
+            // one violation per sub-check is reported: the first shard's, in shard order
+            let had = self.sub_failed(sub);
+            let mut f = f;
+            if had {
+                f.violations.clear();
+            } else if f.violations.len() > 1 {
+                f.violations.truncate(1);
+            }
+            self.merge(f);
+            first = false;
+        }
+        let _ = first;
+    }
+
+    /// for strategies that are not `Sync` (boxed unions): one runner, one thread
+    pub fn run_proptest_serial<S>(&mut self, sub: &str, cfg: &'static dyn Config, cases: u32, strat: S, check: CheckFn)
     where
         S: Strategy<Value = Input>,
     {
@@ -439,6 +489,13 @@ impl Ctx {
             return;
         }
         let seed = self.sub_seed(sub, cfg.name());
+        self.run_proptest_shard(sub, cfg, cases, &strat, check, seed);
+    }
+
+    fn run_proptest_shard<S>(&mut self, sub: &str, cfg: &'static dyn Config, cases: u32, strat: &S, check: CheckFn, seed: u64)
+    where
+        S: Strategy<Value = Input>,
+    {
         let config = PtConfig {
             cases,
             failure_persistence: None,
@@ -451,7 +508,7 @@ impl Ctx {
         let mut runner = TestRunner::new(config);
         let failed = Cell::new(false);
         let me = RefCell::new(&mut *self);
-        let result = runner.run(&strat, |input| {
+        let result = runner.run(strat, |input| {
             let counting = !failed.get();
             let v = me.borrow_mut().run_case(sub, cfg, &input, check, counting);
             match v {
@@ -479,6 +536,128 @@ impl Ctx {
             Err(TestError::Abort(why)) => {
                 infra_error(&format!("proptest aborted in {} / {}: {}", self.prop, sub, why));
             }
+        }
+    }
+
+
+    /// Thorough tier only: one bounded libFuzzer campaign (coverage-guided) with this property's
+    /// own check function as the in-target oracle (DESIGN.md section 6). The campaign binary is
+    /// built by ./check from /repo's current sources; if it is not there (no nightly toolchain,
+    /// build failed) the campaign is skipped and the evidence says so. A saved crash input is
+    /// decoded and re-judged through the ordinary path, so a violation found by the fuzzer is
+    /// reported, shrunk and replayed like any other; an artifact that does not reproduce is
+    /// noted, never reported.
+    pub fn fuzz_campaign(&mut self, target: &str, runs: u64, seeded: bool, check: CheckFn) {
+        let bin = format!("{}/target/fuzz/x86_64-unknown-linux-gnu/release/{}", VERIF_DIR, target);
+        if std::env::var("AISVERIF_FUZZ").map(|v| v == "0").unwrap_or(false) || !std::path::Path::new(&bin).exists() {
+            self.notes.push(format!("libFuzzer campaign {} skipped: {} not built", target, bin));
+            return;
+        }
+        let mode = if seeded { "seeded" } else { "empty" };
+        let sub = format!("libfuzzer:{}:{}", target, mode);
+        let work = format!("{}/target/fuzzwork/{}-{}-{}", VERIF_DIR, self.prop, target, mode);
+        let _ = std::fs::remove_dir_all(&work);
+        let corpus = format!("{}/corpus", work);
+        let arts = format!("{}/artifacts/", work);
+        if std::fs::create_dir_all(&corpus).is_err() || std::fs::create_dir_all(&arts).is_err() {
+            self.notes.push(format!("libFuzzer campaign {} skipped: cannot create {}", target, work));
+            return;
+        }
+        if seeded {
+            if let Ok(rd) = std::fs::read_dir(format!("{}/fuzz/seeds/{}", VERIF_DIR, target)) {
+                for e in rd.flatten() {
+                    let _ = std::fs::copy(e.path(), format!("{}/{}", corpus, e.file_name().to_string_lossy()));
+                }
+            }
+        }
+        let mut cmd = std::process::Command::new(&bin);
+        cmd.arg(&corpus)
+            .arg(format!("-runs={}", runs))
+            .arg(format!("-seed={}", (self.seed % 0xffff_fff0) + 1))
+            .arg("-len_control=0")
+            .arg("-max_len=2048")
+            .arg("-timeout=60")
+            .arg("-rss_limit_mb=4096")
+            .arg("-max_total_time=900")
+            .arg("-print_final_stats=1")
+            .arg(format!("-artifact_prefix={}", arts))
+            .env("AISVERIF_ARM", self.prop)
+            .stdout(std::process::Stdio::null())
+            .stderr(std::process::Stdio::piped());
+        if target == "fz_lines" {
+            cmd.arg(format!("-dict={}/fuzz/nmea.dict", VERIF_DIR));
+        }
+        let out = match cmd.output() {
+            Ok(o) => o,
+            Err(e) => {
+                self.notes.push(format!("libFuzzer campaign {} skipped: cannot start: {}", target, e));
+                return;
+            }
+        };
+        let log = String::from_utf8_lossy(&out.stderr);
+        let stat = |key: &str| -> u64 {
+            log.lines().filter(|l| l.starts_with(key)).filter_map(|l| l.split_whitespace().last().and_then(|v| v.parse().ok())).last().unwrap_or(0)
+        };
+        let execs = stat("stat::number_of_executed_units:");
+        let cov = log.lines().rev().find_map(|l| l.split(" cov: ").nth(1).and_then(|r| r.split_whitespace().next()).and_then(|v| v.parse::<u64>().ok())).unwrap_or(0);
+        let corpus_size = std::fs::read_dir(&corpus).map(|d| d.count()).unwrap_or(0);
+        {
+            let st = self.subs.entry(sub.clone()).or_default();
+            st.cases += execs;
+            st.evals += execs;
+            st.space = format!("libFuzzer -runs={} from {} corpus: {} executions, {} coverage edges, final corpus {} inputs", runs, mode, execs, cov, corpus_size);
+        }
+        self.fuzz_execs += execs;
+        // saved inputs
+        let mut found: Vec<std::path::PathBuf> = std::fs::read_dir(&arts).map(|d| d.flatten().map(|e| e.path()).collect()).unwrap_or_default();
+        found.sort();
+        for f in found {
+            let name = f.file_name().map(|n| n.to_string_lossy().to_string()).unwrap_or_default();
+            let data = match std::fs::read(&f) {
+                Ok(d) => d,
+                Err(_) => continue,
+            };
+            let input = if target == "fz_lines" { crate::fuzzglue::decode_lines(&data, self.prop) } else { crate::fuzzglue::decode_payload(&data, self.prop) };
+            match input {
+                Some(input) => {
+                    let before = self.violations.len();
+                    for cfg in crate::fuzzglue::configs_for(self.prop) {
+                        if !self.sweep_case(&sub, cfg, &input, check) {
+                            // reduce a failing history by greedy line removal before reporting it
+                            if let (Some(v), Input::History { lines }) = (self.violations.pop(), &input) {
+                                let fails = |ls: &Vec<Line>| {
+                                    let mut r = Rec::default();
+                                    matches!(check(&sub, cfg, &Input::History { lines: ls.clone() }, &mut r), Verdict::Fail { .. })
+                                };
+                                let mut cur = lines.clone();
+                                let mut i = 0;
+                                while i < cur.len() && cur.len() > 1 {
+                                    let mut cand = cur.clone();
+                                    cand.remove(i);
+                                    if fails(&cand) {
+                                        cur = cand;
+                                    } else {
+                                        i += 1;
+                                    }
+                                }
+                                let small = Input::History { lines: cur };
+                                let mut r = Rec::default();
+                                match check(&sub, cfg, &small, &mut r) {
+                                    Verdict::Fail { expected, observed } => self.record_violation(&sub, cfg, small, expected, observed),
+                                    _ => self.violations.push(v),
+                                }
+                            }
+                        }
+                    }
+                    if self.violations.len() == before {
+                        self.notes.push(format!("libFuzzer saved {} but the input does not fail when re-judged (timeout / out-of-memory artifact?); not reported", name));
+                    }
+                }
+                None => self.notes.push(format!("libFuzzer saved {} which does not decode into an input", name)),
+            }
+        }
+        if !out.status.success() && self.violations.is_empty() {
+            self.notes.push(format!("libFuzzer {} exited with {:?} without a reproducible failing input", target, out.status.code()));
         }
     }
 
@@ -585,6 +764,7 @@ impl Ctx {
                 "classes": self.classes,
                 "excluded_from_domain": self.excluded,
                 "evaluations_per_configuration": self.per_config,
+                "libfuzzer_executions": self.fuzz_execs,
                 "known_findings_matched": known_json,
                 "notes": self.notes,
             },
